@@ -381,3 +381,162 @@ def show(j, cells=None):
     if not j.get("kids"):
         return c
     return "(%s %s)" % (c, " ".join(show(k, cells) for k in j["kids"]))
+
+
+# ---------------------------------------------------------------------------------------------
+# Slot form: a merged term as a tree of positions, each with a symbolic tag and scalar slots.
+# Equality of two terms in slot form is a *conjunction* over positions, so it can be decided by many
+# small queries instead of one query with deeply nested disjunctions.
+
+class Slots:
+    __slots__ = ("tag", "idx", "lit", "imp", "name", "names", "sr_some", "sr_start", "sr_end", "kids", "ctors")
+
+
+_NAME_IDS = {}
+
+
+def name_id(n):
+    if isinstance(n, Union):
+        alts = [(g, name_id(v)) for g, v in n.alts]
+        r = alts[-1][1]
+        for g, v in reversed(alts[:-1]):
+            r = z_ite_int(g, v, r)
+        return r
+    if n not in _NAME_IDS:
+        _NAME_IDS[n] = len(_NAME_IDS) + 1
+    return _NAME_IDS[n]
+
+
+def z_ite_int(g, a, b):
+    if g is True:
+        return a
+    if g is False:
+        return b
+    if isinstance(a, int) and isinstance(b, int) and a == b:
+        return a
+    if is_sym(a) and is_sym(b) and z3.eq(a, b):
+        return a
+    return z3.If(g, a if is_sym(a) else z3.IntVal(a), b if is_sym(b) else z3.IntVal(b))
+
+
+def z_ite_bool(g, a, b):
+    if g is True:
+        return a
+    if g is False:
+        return b
+    if isinstance(a, bool) and isinstance(b, bool) and a == b:
+        return a
+    return z3.If(g, a if is_sym(a) else z3.BoolVal(a), b if is_sym(b) else z3.BoolVal(b))
+
+
+def _chain(alts, ite, default):
+    if not alts:
+        return default
+    r = alts[-1][1]
+    for g, v in reversed(alts[:-1]):
+        r = ite(g, v, r)
+    return r
+
+
+def slotify(ex, t, memo=None):
+    from .merge import merge
+    if memo is None:
+        memo = {}
+    key = id(t)
+    hit = memo.get(key)
+    if hit is not None and hit[0] is t:
+        return hit[1]
+    vs = views(ex, t)
+    s = Slots()
+    s.ctors = [c for _, c, _ in vs]
+    s.tag = _chain([(g, CODE[c]) for g, c, _ in vs], z_ite_int, -1)
+    idxs, lits, imps, names = [], [], [], []
+    kid_alts = {}
+    for g, c, a in vs:
+        f = a.fields
+        if c in ("Variable", "Unifier"):
+            idxs.append((g, f[1]))
+            if c == "Variable":
+                names.append((g, [name_id(f[0])]))
+        elif c == "IntegerLiteral":
+            lits.append((g, f[0].v if isinstance(f[0], Big) else f[0]))
+        elif c in ("Lambda", "Pi"):
+            imps.append((g, f[1]))
+            names.append((g, [name_id(f[0])]))
+            kid_alts.setdefault(0, []).append((g, f[2]))
+            kid_alts.setdefault(1, []).append((g, f[3]))
+        elif c.startswith("Let"):
+            defs = f[0]
+            names.append((g, [name_id(d[0]) for d in defs]))
+            for i, d in enumerate(defs):
+                kid_alts.setdefault(2 * i, []).append((g, d[1]))
+                kid_alts.setdefault(2 * i + 1, []).append((g, d[2]))
+            kid_alts.setdefault(2 * len(defs), []).append((g, f[1]))
+        else:
+            for i, x in enumerate(f):
+                kid_alts.setdefault(i, []).append((g, x))
+    s.idx = _chain(idxs, z_ite_int, 0)
+    s.lit = _chain(lits, z_ite_int, 0)
+    s.imp = _chain(imps, z_ite_bool, False)
+    nmax = max([len(n) for _, n in names] + [0])
+    s.names = [_chain([(g, n[i]) for g, n in names if len(n) > i], z_ite_int, 0) for i in range(nmax)]
+    sr = source_range_of(t)
+    sr_alts = sr.alts if isinstance(sr, Union) else [(True, sr)]
+    s.sr_some = _chain([(g, o.variant == "Some") for g, o in sr_alts], z_ite_bool, False)
+    somes = [(g, o.fields[0]) for g, o in sr_alts if o.variant == "Some"]
+    s.sr_start = _chain([(g, o.fields["start"]) for g, o in somes], z_ite_int, 0)
+    s.sr_end = _chain([(g, o.fields["end"]) for g, o in somes], z_ite_int, 0)
+    s.kids = {}
+    for i, alts in kid_alts.items():
+        s.kids[i] = slotify(ex, merge(alts) if len(alts) > 1 else alts[0][1], memo)
+    memo[key] = (t, s)
+    return s
+
+
+def _tag_in(tag, ctors):
+    codes = sorted(CODE[c] for c in ctors)
+    if isinstance(tag, int):
+        return tag in codes
+    return z_or(*[tag == c for c in codes])
+
+
+NAMED = [c for c in CTORS if c in ("Variable", "Lambda", "Pi") or c.startswith("Let")]
+
+
+def slot_eq(ex, a, b, opts=DEFAULT_EQ):
+    """[(context, formula, where)]: a == b iff every formula holds under its context."""
+    memo = {}
+    sa, sb = slotify(ex, a, memo), slotify(ex, b, memo)
+    out = []
+
+    def rec(x, y, ctx, where):
+        if x is y:
+            return
+        out.append((ctx, z_eq(x.tag, y.tag), where + ".tag"))
+        both = set(x.ctors) & set(y.ctors)
+        if both & {"Variable", "Unifier"}:
+            out.append((z_and(ctx, _tag_in(x.tag, ["Variable", "Unifier"])), z_eq(x.idx, y.idx), where + ".index"))
+        if "IntegerLiteral" in both:
+            out.append((z_and(ctx, _tag_in(x.tag, ["IntegerLiteral"])), z_eq(x.lit, y.lit), where + ".literal"))
+        if both & {"Lambda", "Pi"}:
+            out.append((z_and(ctx, _tag_in(x.tag, ["Lambda", "Pi"])), z_eq(x.imp, y.imp), where + ".implicit"))
+        if opts.names:
+            for i in range(min(len(x.names), len(y.names))):
+                who = [c for c in both if c in ("Variable", "Lambda", "Pi") and i == 0 or (c.startswith("Let") and let_n(c) > i)]
+                if who:
+                    out.append((z_and(ctx, _tag_in(x.tag, who)), z_eq(x.names[i], y.names[i]), where + ".name%d" % i))
+        if opts.source_ranges:
+            out.append((ctx, z_eq(x.sr_some, y.sr_some), where + ".sr"))
+            out.append((z_and(ctx, x.sr_some), z_and(z_eq(x.sr_start, y.sr_start), z_eq(x.sr_end, y.sr_end)), where + ".sr-range"))
+        for i in sorted(set(x.kids) & set(y.kids)):
+            who = [c for c in both if ARITY[c] > i]
+            if not who:
+                continue
+            if not opts.annotations:
+                who = [c for c in who if not ((c == "Lambda" and i == 0) or (c.startswith("Let") and i % 2 == 0 and i < 2 * let_n(c)))]
+                if not who:
+                    continue
+            rec(x.kids[i], y.kids[i], z_and(ctx, _tag_in(x.tag, who)), "%s.%d" % (where, i))
+
+    rec(sa, sb, True, "")
+    return out
